@@ -14,7 +14,7 @@ import numpy as np
 import z3
 
 from symx import loader, models
-from symx.core import Sym, Ctx, symarray, qval, is_nan
+from symx.core import Sym, Ctx, symarray, qval, is_nan, OutsideClaim
 from symx.report import fl, concretiser
 from harness import pipeline as PP
 
@@ -49,6 +49,7 @@ def instances(tier):
     for n in ([4, 5, 6, 8] if tier == "quick" else [4, 5, 6, 8, 10, 12]):
         out.append({"name": f"trim_n{n}", "func": "run_trim", "kwargs": {"n": n}})
         out.append({"name": f"trim3c_n{n}", "func": "run_trim", "kwargs": {"n": n, "three": True}})
+        out.append({"name": f"trim_twice_n{n}", "func": "run_trim_twice", "kwargs": {"n": n}})
     return out
 
 
@@ -285,9 +286,65 @@ def run_trim(rep, tier, n, three=False):
         rep.sample({"n": n, "kept": [i_s, i_e]})
 
 
+def run_trim_twice(rep, tier, n):
+    """A second trim on the same object acts on the record as it now is: same outcome as on a freshly built series holding the
+    kept samples (for which run_trim proves the meaning of trim)."""
+    Ld = L()
+    TS = Ld["timeseries"].TimeSeries
+
+    def run(ctx):
+        x = symarray("x", (n,), ctx)
+        t0, t1, u0, u1 = (Sym.var(k, ctx) for k in ("start", "end", "start2", "end2"))
+        obj = TS(x, DT)
+        try:
+            obj.trim(t0, t1)
+        except IndexError:
+            raise OutsideClaim("first trim refused")
+        kept = list(obj.amplitude)
+        fresh = TS(np.array(kept, dtype=object), DT)
+
+        def second(o):
+            try:
+                o.trim(u0, u1)
+                return ("ok", list(o.amplitude))
+            except IndexError:
+                return ("IndexError", None)
+        return x, (t0, t1, u0, u1), kept, second(obj), second(fresh)
+
+    for ctx, (x, ts, kept, a, b) in rep.explore(run, max_paths=500 if tier == "quick" else 4000):
+        W = lambda m: {"kind": "trim-twice", "n": n, "x": [concretiser(m)(v) for v in x], "times": [concretiser(m)(v) for v in ts]}
+        rep.obligations += 1
+        same = a[0] == b[0] and (a[1] is None or (len(a[1]) == len(b[1]) and all(p is q or z3.eq(Sym.lift(p), Sym.lift(q)) for p, q in zip(a[1], b[1]))))
+        if same:
+            rep.discharged += 1
+        else:
+            r_, m = ctx.model()
+            rep.candidate(W(m), f"second trim on the trimmed object gives {a[0]} {None if a[1] is None else len(a[1])} samples, on a fresh series of the kept samples {b[0]} {None if b[1] is None else len(b[1])}",
+                          key="trim-after-trim")
+        rep.sample({"n": n, "kept_after_first": len(kept)})
+
+
 # ----------------------------------------------------------------------------- concrete side
 def replay(spec):
     import hvsrpy, tempfile, os
+    if spec["kind"] == "trim-twice":
+        x = np.array(spec["x"], dtype=float) + np.arange(spec["n"]) * 1e-6
+        t0, t1, u0, u1 = spec["times"]
+        ts = hvsrpy.TimeSeries(x.copy(), DT)
+        try:
+            ts.trim(t0, t1)
+        except IndexError:
+            return {"reproduced": False, "detail": "first trim refused on the concrete witness"}
+        fresh = hvsrpy.TimeSeries(ts.amplitude.copy(), DT)
+
+        def second(o):
+            try:
+                o.trim(u0, u1)
+                return ("ok", o.amplitude.tolist())
+            except IndexError:
+                return ("IndexError", None)
+        a, b = second(ts), second(fresh)
+        return {"reproduced": a != b, "key": "trim-after-trim", "detail": f"trim({t0},{t1}) then trim({u0},{u1}): same object -> {a[0]} {a[1]}, fresh series of the kept samples -> {b[0]} {b[1]}"[:400]}
     if spec["kind"] == "trim":
         x = np.array(spec["x"], dtype=float) + np.arange(spec["n"]) * 1e-6
         n = spec["n"]
